@@ -43,6 +43,10 @@ def gen_distinct(r, tier):
 
 def gen_setpwm(r, tier):
     ops = []
+    # several controllers with fans and maps of their own call setPwm at the same time (seed C12h: the digits to be written
+    # lived in a pooled buffer that was given back before the write)
+    for _ in range(2 if tier == "quick" else 12):
+        ops += ["#case parallel", f"w.parallel n={r.pick([16, 24, 48])} rounds={r.pick([150, 300])} seed={r.range(1, 999)}"]
     n = 150 if tier == "quick" else 2000
     for _ in range(n):
         pm = streams.gen_pwm_map(r)
@@ -64,6 +68,17 @@ def gen_setpwm(r, tier):
                 ops.append(f"w.setpwm t={t}")
                 ops.append("w.dev pwmwrite=applied")
             ops.append(f"w.setpwm t={t}")
+        # a single read of the PWM register fails (sporadic EIO, a read racing a rewrite of the file) somewhere inside a
+        # setPwm; the device was left at another value before: the request must reach the device all the same (seed C12g:
+        # the failed read-back was answered with the request itself and the write skipped as "already there")
+        if kind != "cmd":
+            ks = sorted(pm)
+            fixed = [k for k in ks if pm[k] == k] or ks
+            for _ in range(r.pick([1, 2, 3])):
+                ops.append(f"w.setpwm t={r.pick(ts)}")
+                ops.append(f"w.dev glitch={r.pick([1, 2, 3, 3, 3])}")
+                ops.append(f"w.setpwm t={r.pick(fixed) if r.chance(0.7) else r.range(-50, 305)}")
+                ops.append("w.dev glitch=0")
         # "for every PWM map": also for a map that REPLACES an earlier one on the same controller (re-detected / re-scaled
         # map: same supported inputs, other outputs; or an unrelated one), with the same requests again (seed C12d)
         for _ in range(r.pick([0, 0, 1, 2])):
@@ -100,7 +115,7 @@ def closest_contract(op, go_line, lean_line):
 class C12(Prop):
     id = "C12"
     lean_modules = ["Fan2go.Props.C12"]
-    fact_modules = ["Fan2go.Props.Trans", "Fan2go.Props.Trans2FindClosest", "Fan2go.Props.Trans2Keys", "Fan2go.Props.Trans3A", "Fan2go.Props.Trans3B"]
+    fact_modules = ["Fan2go.Props.Trans", "Fan2go.Props.Trans2FindClosest", "Fan2go.Props.Trans2Keys", "Fan2go.Props.Trans3A", "Fan2go.Props.Trans3B", "Fan2go.Props.Trans3Init"]
     rule = ("closest: exhaustive key sets over a small universe x requests -50..305 + random full-size key sets; "
             "distinct: PWM-map shapes (identity, sparse, quantiser, plateau, non-monotone, constant, single); "
             "setpwm: real controller.setPwm on a virtual device (hwmon / file fans) or on real scripts (cmd fans). non-trivial = distinct (|keys|>=2, request strictly "
@@ -142,6 +157,13 @@ class C12(Prop):
                                          case_ops=["#case distinct", op], go=["#case distinct", g]))
         elif name == "setpwm":
             for cops, cgo in cases(ops, go):
+                if len(cops) >= 2 and cops[1].startswith("w.parallel"):
+                    g = kv(cgo[1])
+                    if g.get("bad", "0") != "0" or not cgo[1].startswith("ok"):
+                        out.append(viol(f"controllers calling setPwm at the same time (own fans, own maps): {g.get('bad')} of {g.get('calls')} calls left "
+                                        f"the controller's own register at a value that is not the map's output for the nearest supported input "
+                                        f"(first: {g.get('first')})", cops, cgo))
+                    continue
                 if len(cops) < 2 or not cops[1].startswith("w.new"):
                     continue
                 m = parse_int_map(kv(cops[1])["map"])
